@@ -1,13 +1,15 @@
 /-
   C07 — pool units are conserved; acquire, rollback, preempt and release account exactly
-  Property theorems only (the process-layer model is CimbaModel/Sim; helper lemmas in CimbaModel/Sim/*).
+  Property theorems only (the process-layer model is CimbaModel/Sim; helper lemmas in CimbaModel/Sim/S2*).
 -/
 import CimbaModel.Sim.Basic
 import CimbaModel.HashHeap.Orders
+import CimbaModel.Sim.S2PoolCalls
+import CimbaModel.Sim.S2PoolFull
 
 namespace CimbaModel.Props.C07
-open CimbaModel CimbaModel.Sim CimbaModel.Event CimbaModel.Generated CimbaModel.HashHeap.SpecOrders
-open CimbaModel.HashHeap (HTag Item Order HH)
+open CimbaModel CimbaModel.Sim CimbaModel.Event CimbaModel.Generated CimbaModel.HashHeap.SpecOrders CimbaModel.KPQ
+open CimbaModel.HashHeap (HTag Item Order HH WF abs amounts amountOf)
 
 /-- the holders of a pool are ordered lowest priority first (the preemption victims), as documented -/
 theorem holder_order_is_lex (a b : HTag) : holder_queue_check a b = true ↔ holderLt a b :=
@@ -19,5 +21,244 @@ theorem holder_order_total : TotalOnKeys holder_queue_check := inferInstance
 theorem pool_demand_iff_available (w : World) (p : Nat) (x : Pool) (hx : w.pools[p]? = some x) :
     evalDemand w (.poolAvail p) = true ↔ x.inUse < x.cap := by
   simp [evalDemand, hx]; omega
+
+/-! ### the invariant -/
+
+/-- what `PoolInv` says, spelled out on the model's own data: for every pool the holder list is a well-formed
+    hashheap; **the amount in use is the sum of the amounts held by the individual processes and does not exceed
+    the capacity**; every holder record belongs to an existing process (key = process id + 1) and carries a positive
+    amount; and a process lists the pool among its held objects exactly when it has a record in the pool's holder list; a record's priority
+    field is the current priority of the process it belongs to -/
+theorem pool_invariant_unfolded {w : World} (hi : PoolInv w) {pl : Nat} {x : Pool} (hx : w.pools[pl]? = some x) :
+    WF holder_queue_check x.holders ∧
+    x.inUse = ((abs x.holders).map (fun t => t.item.b)).sum ∧
+    x.inUse ≤ x.cap ∧
+    (∀ k ∈ keys (abs x.holders), ∃ pid, pid < w.procs.size ∧ k = pid + 1) ∧
+    (∀ t ∈ abs x.holders, 0 < t.item.b) ∧
+    (∀ t ∈ abs x.holders, t.i = (w.proc (t.key - 1)).prio) ∧
+    (∀ q, HoldRef.pool pl ∈ (w.proc q).held ↔ q + 1 ∈ keys (abs x.holders)) := by
+  obtain ⟨ok, lk⟩ := hi.2 pl x.view (poolView_of_get hx)
+  exact ⟨ok.wf, ok.sum, ok.inCap, ok.tags, ok.pos, ok.prio, lk⟩
+
+/-- the invariant that is preserved is `PoolFull` = `PoolInv` together with: every process suspended inside a pool
+    acquisition (frame `.pool pl rem …`) still has a positive outstanding claim `rem` -/
+theorem pool_full_unfolded (w : World) :
+    PoolFull w ↔ PoolInv w ∧ ∀ q pl rem ini pre, (w.proc q).blocked = some (.pool pl rem ini pre) → 0 < rem := Iff.rfl
+
+/-- the amount a process holds according to the model's query `heldAmount` (the library's `cmb_resourcepool_held_by_process`)
+    is the amount in its holder record, 0 if it has none -/
+theorem held_amount_is_record {w : World} (hi : PoolInv w) {pl : Nat} {x : Pool} (hx : w.pools[pl]? = some x) (p : Pid) :
+    heldAmount w pl p = amountOf (abs x.holders) (p + 1) :=
+  heldAmount_eq (poolView_of_get hx) (hi.2 pl _ (poolView_of_get hx)).1.wf p
+
+/-- no single process holds more than is in use -/
+theorem held_le_in_use {w : World} (hi : PoolInv w) {pl : Nat} {x : Pool} (hx : w.pools[pl]? = some x) (p : Pid) :
+    heldAmount w pl p ≤ x.inUse := by
+  rw [held_amount_is_record hi hx]
+  obtain ⟨ok, _⟩ := hi.2 pl x.view (poolView_of_get hx)
+  have hwf : WF holder_queue_check x.holders := ok.wf
+  have := amountOf_le_amounts hwf.keys_nodup (p + 1)
+  have hs : x.inUse = amounts (abs x.holders) := ok.sum
+  omega
+
+/-- **one dispatched event** — everything the resumed process does until it yields, any command, any resumption of a
+    suspended call (including rollback after an interrupt), preemption of other holders, the end of processes —
+    **keeps the invariant** -/
+theorem pool_invariant_dispatch {w w' : World} (hi : PoolFull w) (hd : dispatch w = some w') : PoolFull w' :=
+  PoolFull.preserved.dispatch hi hd
+
+/-- hence it holds in every reachable state, for all programs, schedules and same-instant coincidences -/
+theorem pool_invariant_reachable {w : World} (hi : PoolFull w) (fuel : Nat) : PoolFull (runAll fuel w) :=
+  PoolFull.preserved.runAll fuel w hi
+
+/-- the invariant holds initially: pools created empty (`cmb_resourcepool_initialize`), nobody holding anything,
+    nobody suspended, fewer than 2^31 processes -/
+theorem pool_invariant_initial (w : World) (hn : w.procs.size < 2 ^ 31)
+    (hheld : ∀ q, (w.proc q).held = []) (hbl : ∀ q, (w.proc q).blocked = none)
+    (hpools : ∀ (pl : Nat) (x : Pool), w.pools[pl]? = some x → x.inUse = 0 ∧ ∃ e, 1 ≤ e ∧ e ≤ 31 ∧ x.holders = mkHH e) : PoolFull w := by
+  refine ⟨⟨hn, ?_⟩, fun q pl rem ini pre hq => by rw [hbl q] at hq; cases hq⟩
+  intro pl v hv
+  obtain ⟨x, hx, rfl⟩ := poolView_some.1 hv
+  obtain ⟨h0, e, he1, he31, hh⟩ := hpools pl x hx
+  obtain ⟨s, hinit, hwf, habs, _⟩ := CimbaModel.HashHeap.init_spec (lt := holder_queue_check) e he1 he31
+  have hs : x.holders = s := by rw [hh]; unfold mkHH; rw [hinit]
+  constructor
+  · refine ⟨⟨by show WF _ x.holders; rw [hs]; exact hwf, ?_, ?_, ?_⟩, ?_, ?_⟩
+    · intro k hk
+      have : keys (abs x.holders) = [] := by rw [hs, habs]; rfl
+      rw [show x.view.holders = x.holders from rfl, this] at hk; cases hk
+    · intro t ht
+      rw [show x.view.holders = x.holders from rfl, hs, habs] at ht; cases ht
+    · intro t ht
+      rw [show x.view.holders = x.holders from rfl, hs, habs] at ht; cases ht
+    · show x.inUse = amounts (abs x.holders)
+      rw [h0, hs, habs]; rfl
+    · show x.inUse ≤ x.cap
+      omega
+  · intro q
+    rw [hheld q]
+    have : keys (abs x.holders) = [] := by rw [hs, habs]; rfl
+    rw [show x.view.holders = x.holders from rfl, this]
+    simp
+
+/-! ### exact accounting of the individual operations (all under the invariant, i.e. in every reachable state) -/
+
+/-- **acquire / preempt when enough is available**: returns success at once, the caller then holds exactly `n` more
+    than before, the amount in use is exactly `n` higher -/
+theorem acquire_ok_direct {w : World} {p : Pid} {pl : Nat} {x : Pool} (hi : PoolInv w) (hp : p < w.procs.size)
+    (hx : w.pools[pl]? = some x) (n ini : Nat) (pre : Bool) (hav : x.cap - x.inUse ≥ n) (hn : 0 < n) :
+    (poolLoop w p pl n ini pre).2 = .ret sigSuccess "" ∧
+    heldOf (poolLoop w p pl n ini pre).1 pl p = heldOf w pl p + n ∧
+    inUseOf (poolLoop w p pl n ini pre).1 pl = inUseOf w pl + n :=
+  poolLoop_direct hi hp hx n ini pre hav hn
+
+/-- **acquire_ok** (`cmb_resourcepool_acquire`): whenever a pass of the acquire loop returns, it returns success and has
+    given the caller exactly the outstanding claim `rem` -/
+theorem acquire_ok {w : World} {p : Pid} {pl : Nat} {x : Pool} (hi : PoolInv w) (hp : p < w.procs.size)
+    (hx : w.pools[pl]? = some x) (rem ini : Nat) (hrem : 0 < rem) {sig : Int} {extra : String}
+    (hr : (poolLoop w p pl rem ini false).2 = .ret sig extra) :
+    sig = sigSuccess ∧ heldOf (poolLoop w p pl rem ini false).1 pl p = heldOf w pl p + rem ∧
+      inUseOf (poolLoop w p pl rem ini false).1 pl = inUseOf w pl + rem :=
+  poolLoop_acquire_ok hi hp hx rem ini hrem hr
+
+/-- … and when it does not return it has taken exactly what was available (`avail`), and waits with the claim reduced
+    by exactly that: `held + outstanding claim` is the same before and after the pass.  Over the passes of one call,
+    starting from claim `n`, the caller has therefore received exactly `n` when the last pass returns success -/
+theorem acquire_partial {w : World} {p : Pid} {pl : Nat} {x : Pool} (hi : PoolInv w) (hp : p < w.procs.size)
+    (hx : w.pools[pl]? = some x) (rem ini : Nat) (hav : ¬ x.cap - x.inUse ≥ rem) :
+    ∃ w1, poolLoop w p pl rem ini false = block w1 p (.pool pl (rem - (x.cap - x.inUse)) ini false) ∧
+      heldOf w1 pl p = heldOf w pl p + (x.cap - x.inUse) ∧
+      inUseOf w1 pl = inUseOf w pl + (x.cap - x.inUse) :=
+  poolLoop_partial hi hp hx rem ini hav
+
+/-- **acquire_ok for a whole call** (`AcquireRun`: the call as the sequence of its passes, anything — including a
+    preemption of the waiting caller — happening in between): the passes together hand the caller at most the claim, and
+    exactly the claim `n` when the call returns success -/
+theorem acquire_ok_whole_call {p : Pid} {pl n ini m : Nat} {sig : Int} (h : AcquireRun p pl n ini m sig) (hn : 0 < n) :
+    m ≤ n ∧ (sig = sigSuccess → m = n) := h.exact hn
+
+/-- **acquire_intr**: an acquire or preempt that is interrupted (any signal other than success) runs the rollback:
+    afterwards the caller holds exactly what it held before the call (`ini`, remembered in the frame) — or what is left of
+    it if it was itself preempted in that same instant (`min`), and nothing if it held nothing before; the amount in
+    use went down by exactly what the caller gave back -/
+theorem acquire_intr {w : World} {p : Pid} {pl : Nat} {x : Pool} (hi : PoolInv w) (hx : w.pools[pl]? = some x)
+    (ini : Nat) :
+    heldOf (poolRollback w p pl ini) pl p = (if ini > 0 then min (heldOf w pl p) ini else 0) ∧
+    inUseOf (poolRollback w p pl ini) pl + heldOf w pl p = inUseOf w pl + heldOf (poolRollback w p pl ini) pl p :=
+  poolRollback_spec hi hx ini
+
+/-- the rollback is what `resumeFrame` runs on a non-success signal -/
+theorem interrupted_acquire_rolls_back (w : World) (p : Pid) (pl rem ini : Nat) (pre : Bool) (sig : Int) (x : Pool)
+    (hx : w.pools[pl]? = some x) (hs : sig ≠ sigSuccess) :
+    resumeFrame w p (.pool pl rem ini pre) sig = (poolRollback (guardWaitLeave w x.guard p sig) p pl ini, .ret sig "") := by
+  simp [resumeFrame, hx, hs]
+
+/-- **release_ok**: a release of `n` lowers the caller's holding and the amount in use by exactly `n` -/
+theorem release_ok {w : World} {p : Pid} {pl : Nat} {x : Pool} (hi : PoolInv w) (hx : w.pools[pl]? = some x)
+    {n : Nat} (hn0 : n ≠ 0) (hnle : n ≤ heldOf w pl p) :
+    (execCmd w p (.poolRelease pl n)).2 = .ret 0 "" ∧
+    heldOf (execCmd w p (.poolRelease pl n)).1 pl p + n = heldOf w pl p ∧
+    inUseOf (execCmd w p (.poolRelease pl n)).1 pl + n = inUseOf w pl :=
+  poolRelease_spec hi hx hn0 hnle
+
+/-- **lose_all**: a process that ends — returns, exits or is stopped — holds nothing afterwards, of any pool -/
+theorem lose_all_at_end (w : World) (p : Pid) (v : Int) (stopped : Bool) (hi : PoolInv w) (pl : Nat) :
+    heldOf (finishProc w p v stopped) pl p = 0 :=
+  heldOf_finishProc w p v stopped hi pl
+
+/-- **preempt_strict**, refusing side: when the first holder in the holder order (lowest priority first) is not of strictly
+    lower priority than the caller, nothing is taken, and no holder at all has strictly lower priority -/
+theorem preempt_never_from_equal_or_higher {w : World} {p : Pid} {pl : Nat} {x : Pool} (hi : PoolInv w)
+    (hx : w.pools[pl]? = some x) (hc : x.holders.count ≠ 0) (hge : ¬ (x.holders.tag 1).i < (w.proc p).prio) (fuel rem : Nat) :
+    poolMug (fuel + 1) w p pl rem = (w, some rem) ∧ ∀ t ∈ abs x.holders, ¬ t.i < (w.proc p).prio :=
+  poolMug_refuses hi hx hc hge fuel rem
+
+/-- **preempt_strict**, taking side: a victim is of strictly lower priority than the caller (hypothesis `hlt` is the
+    test the loop makes); it is an existing process; it loses its whole record (`lose_all`: holds 0 afterwards, having
+    held `loot` before) and is notified at that very instant by an interrupt event carrying PREEMPTED, scheduled at the
+    current time with the victim's own priority; the loot goes to the caller, the surplus back to the pool -/
+theorem preempt_takes_strictly_lower {w : World} {p : Pid} {pl : Nat} {x : Pool} (hi : PoolInv w) (hx : w.pools[pl]? = some x)
+    (hc : x.holders.count ≠ 0) (hlt : (x.holders.tag 1).i < (w.proc p).prio) (fuel rem : Nat) :
+    ∃ h1 w3,
+      HashHeap.dequeue holder_queue_check x.holders = .ok (h1, some (x.holders.tag 1)) ∧
+      w3 = (sched (removeHeld { w with pools := w.pools.set! pl { x with holders := h1 } }
+              ((x.holders.tag 1).key - 1) (.pool pl)).1 aIntr ((x.holders.tag 1).key - 1 + 1) sigPreempted w.now
+              (w.proc ((x.holders.tag 1).key - 1)).prio).1 ∧
+      poolMug (fuel + 1) w p pl rem =
+        (if (x.holders.tag 1).item.b < rem then
+          poolMug fuel (poolUpdateRecord w3 pl p (x.holders.tag 1).item.b) p pl (rem - (x.holders.tag 1).item.b)
+        else
+          (signal (recordPool (setPoolInUse (poolUpdateRecord w3 pl p rem) pl
+            (((poolUpdateRecord w3 pl p rem).pools.getD pl x).inUse - ((x.holders.tag 1).item.b - rem))) pl) x.guard,
+            none)) ∧
+      (∃ e ∈ w3.ev.pending, e.item.a = aIntr ∧ e.item.b = (x.holders.tag 1).key - 1 + 1 ∧
+          e.item.c = encSig sigPreempted ∧ e.d = w.now ∧ e.i = (w.proc ((x.holders.tag 1).key - 1)).prio) ∧
+      (x.holders.tag 1).key - 1 < w.procs.size ∧ (x.holders.tag 1).key - 1 + 1 = (x.holders.tag 1).key ∧
+      heldOf w3 pl ((x.holders.tag 1).key - 1) = 0 ∧
+      heldOf w pl ((x.holders.tag 1).key - 1) = (x.holders.tag 1).item.b :=
+  poolMug_takes hi hx hc hlt fuel rem
+
+/-- the victim's *process* priority (not just the priority stored in its record) is strictly below the caller's, and a
+    process is never its own victim -/
+theorem preempt_victim_priority_strictly_lower {w : World} {p : Pid} {pl : Nat} {x : Pool} (hi : PoolInv w)
+    (hx : w.pools[pl]? = some x) (hc : x.holders.count ≠ 0) (hlt : (x.holders.tag 1).i < (w.proc p).prio) :
+    (x.holders.tag 1).key ≠ p + 1 ∧ (w.proc ((x.holders.tag 1).key - 1)).prio < (w.proc p).prio :=
+  mug_not_self hi hx hc hlt
+
+/-- **the mugging loop as a whole** (any number of victims): it keeps the invariant, and the caller's holding plus what
+    is still to be claimed afterwards equals its holding plus the claim before — the loop hands the caller exactly what it
+    takes off the claim -/
+theorem preempt_loop_exact (fuel : Nat) (w : World) (p : Pid) (pl rem : Nat) (hi : PoolInv w) (hp : p < w.procs.size)
+    (hrem : 0 < rem) :
+    PoolInv (poolMug fuel w p pl rem).1 ∧ (poolMug fuel w p pl rem).1.procs.size = w.procs.size ∧
+    heldOf (poolMug fuel w p pl rem).1 pl p + remaining (poolMug fuel w p pl rem).2 = heldOf w pl p + rem :=
+  poolMug_total fuel w p pl rem hi hp hrem
+
+/-- **preempt_ok** (`cmb_resourcepool_preempt`): whenever a pass of the preempt loop returns, it returns success and has
+    given the caller exactly the outstanding claim `rem` — free units plus what was taken from any number of victims -/
+theorem preempt_ok {w : World} {p : Pid} {pl : Nat} {x : Pool} (hi : PoolInv w) (hp : p < w.procs.size)
+    (hx : w.pools[pl]? = some x) (rem ini : Nat) (hrem : 0 < rem) {sig : Int} {extra : String}
+    (hr : (poolLoop w p pl rem ini true).2 = .ret sig extra) :
+    sig = sigSuccess ∧ heldOf (poolLoop w p pl rem ini true).1 pl p = heldOf w pl p + rem :=
+  poolLoop_preempt_ok hi hp hx rem ini hrem hr
+
+/-- … and when a pass of preempt does not return, the caller has received exactly the part of its claim that the pass took
+    off it (free units plus the victims' holdings): `held + outstanding claim` is conserved, the claim stays positive -/
+theorem preempt_partial {w : World} {p : Pid} {pl : Nat} {x : Pool} (hi : PoolInv w) (hp : p < w.procs.size)
+    (hx : w.pools[pl]? = some x) (rem ini : Nat) (hrem : 0 < rem)
+    (hr : (poolLoop w p pl rem ini true).2 = .blocked) :
+    ∃ w1 rem', poolLoop w p pl rem ini true = block w1 p (.pool pl rem' ini true) ∧ 0 < rem' ∧ rem' ≤ rem ∧
+      heldOf w1 pl p + rem' = heldOf w pl p + rem :=
+  poolLoop_preempt_partial hi hp hx rem ini hrem hr
+
+/-- **acquire_ok / preempt_ok for a whole call** (`ClaimRun`: acquire or preempt as the sequence of its passes, anything —
+    including a preemption of the waiting caller — happening in between): the passes together hand the caller at most
+    the claim, and exactly the claim `n` when the call returns success -/
+theorem claim_ok_whole_call {p : Pid} {pl : Nat} {pre : Bool} {n ini m : Nat} {sig : Int}
+    (h : ClaimRun p pl pre n ini m sig) (hn : 0 < n) : m ≤ n ∧ (sig = sigSuccess → m = n) := h.exact hn
+
+/-- the mugging loop as a whole (any number of victims) keeps the invariant: units only move between records -/
+theorem preempt_conserves (fuel : Nat) (w : World) (p : Pid) (pl rem : Nat) (hi : PoolInv w) (hp : p < w.procs.size)
+    (hrem : 0 < rem) : PoolInv (poolMug fuel w p pl rem).1 :=
+  PoolInv.poolMug fuel w p pl rem hi hp hrem
+
+/-! ### the hypotheses are satisfiable -/
+
+/-- an initial world with one pool of capacity 5 and two processes satisfies the invariant -/
+example : PoolFull { procs := #[{}, {}], pools := #[{ cap := 5, holders := mkHH 4, guard := 0 }] } := by
+  apply pool_invariant_initial
+  · decide
+  · intro q
+    unfold World.proc
+    rw [Array.getD_eq_getD_getElem?]
+    rcases q with _ | _ | q <;> simp
+  · intro q
+    unfold World.proc
+    rw [Array.getD_eq_getD_getElem?]
+    rcases q with _ | _ | q <;> simp
+  · intro pl x hx
+    rcases pl with _ | pl
+    · simp at hx; subst hx; exact ⟨rfl, 4, by decide, by decide, rfl⟩
+    · simp at hx
 
 end CimbaModel.Props.C07
